@@ -127,7 +127,7 @@ fn check_built_graph(g: &Graph, b: Built<usize>) -> Result<(Vec<Vec<usize>>, usi
 pub fn run(tier: Tier) -> i32 {
     let mut rep = Report::new("C19", tier);
     let thorough = tier == Tier::Thorough;
-    let mut graphs: Vec<Graph> = universe_upto(4);
+    let graphs: Vec<Graph> = universe_upto(4);
     let mut space = "U(<=4)".to_string();
     if thorough {
         // every labelled digraph on 5 arguments (2^25)
@@ -181,6 +181,18 @@ pub fn run(tier: Tier) -> i32 {
         acc = acc.merge(more);
     } else {
         let more = (0..(1u64 << 25)).into_par_iter().filter(|c| c.count_ones() <= 10).map(|c| check_one(&Graph::from_code(5, c))).reduce(Acc::default, Acc::merge);
+        acc = acc.merge(more);
+    }
+    // 6 arguments: one framework per isomorphism class with <= 7 [8] attacks, in three numberings
+    {
+        let k = if thorough { 8 } else { 7 };
+        let classes = crate::universe::iso_classes_augment(6, k);
+        space.push_str(&format!(" + {} isomorphism classes of 6-argument digraphs with <= {} attacks x 3 numberings", classes.len(), k));
+        let perms: [[usize; 6]; 3] = [[0, 1, 2, 3, 4, 5], [5, 4, 3, 2, 1, 0], [3, 4, 5, 0, 1, 2]];
+        let more = classes
+            .par_iter()
+            .map(|g| perms.iter().map(|p| check_one(&g.permuted(&p.to_vec()))).fold(Acc::default(), Acc::merge))
+            .reduce(Acc::default, Acc::merge);
         acc = acc.merge(more);
     }
     rep.states = acc.graphs * 3;
